@@ -6,7 +6,7 @@
            (2 x<key>)                Get
    The store starts empty, the first root is the empty root.
    observation = ( genobs.. ), genobs =
-     ( ( getresult.. ) x<root> nodeset dump )
+     ( ( getresult.. ) x<root> nodeset dump dels pvs )
        getresult = (x<value>) | ()
        nodeset   = (0)                                  nil node set
                  | (1 ( entry.. ))                      sorted by path
@@ -15,6 +15,8 @@
        dump      = ( (x<key> x<blob>).. )               the whole trie-node keyspace of the
                                                         store after applying, sorted by key
                                                         (key = path / hash)
+       dels      = ( x<path>.. )   opTracer.deletes right before the commit, sorted
+       pvs       = ( x<path>.. )   paths holding a pre-value (Trie.Witness keys), sorted
    an error yields (-2 <class>) in place of the genobs and stops the run. *)
 From GV Require Import Lib.Sx Keccak.Sponge Trie.Hex Trie.Node Trie.Ops Trie.Hash Trie.Commit.
 
@@ -73,7 +75,9 @@ Fixpoint run_gens (sc : scheme) (s : store) (root : list N) (gens : list sx) : l
                       | None => SL [SI 0%Z]
                       | Some ns => SL [SI 1%Z; SL (map entry_sx ns)]
                       end;
-                      dump_sx s'] :: run_gens sc s' root' r
+                      dump_sx s';
+                      SL (map (fun pu => SB (fst pu)) (tr_del (s_tr ss')));
+                      SL (map (fun pb => SB (fst pb)) (tr_pv (s_tr ss')))] :: run_gens sc s' root' r
               end
           end
       end
